@@ -62,9 +62,9 @@ theorem getElem?_applyAt (g : Comp → Comp) (idxs : List Nat) (hn : idxs.Nodup)
     rw [ih hn'.2]
     by_cases hj : j = i
     · subst hj
-      simp [hn'.1, List.getElem?_modify]
+      simp [hn'.1]
     · have : ¬ i = j := fun e => hj e.symm
-      simp [hj, List.getElem?_modify, this]
+      simp [hj, this]
 
 /-! ### `_find_alterable_ce` -/
 
